@@ -49,6 +49,9 @@ CHECKS = {
  "C17": dict(engine="I+H", tech=I+"; "+H, ref="DESIGN.md §3 C17",
    text="Routing: shard counts 1..128, 211, 509, 1024, 4093 x every supported key type at its boundary values through SimpleIndex and XHashIndex (in range, stable across calls and instances, unsigned integers modulo shards) and SearchIndex on boundary probes (monotone, onto, spans 0..n-1). Containers: breadth-first over operation sequences on (sharded, unsharded) pairs of Map, LRU, tiny LRU, KeyLocker, TKeyLocker incl. multi-key calls, SemMap for 1,2,3,73 shards with modulo and xxhash routing; answers and hook-observed per-key state compared after every step.",
    note="the 2^64 hash values between probes are covered by monotonicity only; LRU capacity chosen so the per-shard bound never binds; only non-blocking lock/semaphore calls; a HitGroup that is not a Bs is not routed through xxhash (undefined)"),
+ "C18": dict(engine="I", tech="exhaustive fault enumeration: every step list up to a length x every begin/commit/rollback fault pattern, executed on the real Transact over a recording in-process database/sql driver", ref="DESIGN.md §3 C18",
+   text="Every step list of length 0..3 quick / 0..5 thorough over {ok, ok+Exec, returns error, Exec fails, panics(string), panics(error), panics(nil)} x begin ok/fails x commit ok/fails x rollback ok/fails x {plain, Combine(all), Combine(tail), nested Combine} through gormx.Transact on gorm's MySQL dialector over a recording in-process driver: exactly one of commit/rollback, commit iff all steps succeeded, no step after the first failure, result identity, no escaping panic, nothing begun with no steps.",
+   note="a failing driver callback has no effect; panic(nil) has the go 1.21 semantics of the harness module"),
 }
 NA = {}
 
